@@ -314,6 +314,22 @@ func init() {
 				if setupViol != nil {
 					return setupViol
 				}
+				if has(sa.AtPoint, "log") {
+					// the log invariants bind whenever no request is being served, whatever background work of earlier
+					// requests is still pending or half done
+					serving := false
+					for _, c := range m.cls {
+						if c.h.Stub.Inflight() {
+							serving = true
+						}
+					}
+					if !serving {
+						if v := m.checkLog(); v != nil {
+							v.Sig += ":between-requests"
+							return v
+						}
+					}
+				}
 				if has(sa.AtPoint, "snapshots") {
 					if v := m.checkSnapshots(); v != nil {
 						return v
